@@ -1,5 +1,6 @@
 import SeqIoModel.Model.Fmt
 import SeqIoModel.Model.Spec
+import SeqIoModel.Model.Write
 /-!
 # Model driver: line protocol
 
@@ -357,12 +358,78 @@ def runReaderCase (toks : List String) : Option (String × String) :=
     else none
   | _ => none
 
+/-! ## writer cases -/
+
+def argOf (s : String) : Option (Option (List UInt8)) :=
+  if s = "~" then some none else (unhex s).map some
+
+def segsOf (s : String) : List (List UInt8) :=
+  if s = "~" then [] else (s.splitOn "|").map fun x => (unhex x).getD []
+
+def reparseFa (out : List UInt8) : String :=
+  match Spec.fasta out with
+  | .invalidStart _ _ => "E"
+  | .records rs => "/".intercalate (rs.map fun r => s!"h={hexOf r.head}:s={hexOf r.seq}")
+
+def reparseFq (out : List UInt8) : String :=
+  "/".intercalate ((Spec.fastq out).map fun
+    | .record r => s!"h={hexOf r.head}:s={hexOf r.seq}:q={hexOf r.qual}"
+    | .err _ _ _ => "E")
+
+/-- `none` = bad case, `some none` = panic -/
+def runWrite (f : String) (w : Nat) (a : List String) : Option (Option (List UInt8)) :=
+  match a with
+  | [a0, a1, a2, a3] =>
+    match f with
+    | "fa_to" => do let h ← unhex a0; let s ← unhex a1; some (some (Write.faTo h s))
+    | "fa_parts" => do let id ← unhex a0; let d ← argOf a1; let s ← unhex a2; some (some (Write.faParts id d s))
+    | "fa_wrap" => do let id ← unhex a0; let d ← argOf a1; let s ← unhex a2; some (Write.faWrap id d s w)
+    | "fa_wrapseq" => do let id ← unhex a0; let d ← argOf a1; let s ← unhex a2; some (Write.faWrap id d s w)
+    | "fa_seqiter" => do let h ← unhex a0; some (some (Write.faRefWrite h (segsOf a1)))
+    | "fa_wrapiter" => do let h ← unhex a0; some (Write.faRefWrap h (segsOf a1) w)
+    | "fa_owned" => do let h ← unhex a0; let s ← unhex a1; some (some (Write.faTo h s))
+    | "fa_owned_wrap" => do let h ← unhex a0; let s ← unhex a1; some (Write.faOwnedWrap h s w)
+    | "fa_many" =>
+      (a0.splitOn "|").foldlM (fun (acc : Option (List UInt8)) rec =>
+        match rec.splitOn ":" with
+        | [h, s] => do let h ← unhexAux h.toList; let s ← unhexAux s.toList; some (acc.map (· ++ Write.faTo h s))
+        | _ => none) (some [])
+    | "fq_to" => do let h ← unhex a0; let s ← unhex a1; let q ← unhex a2; some (some (Write.fqTo h s q))
+    | "fq_parts" => do
+      let id ← unhex a0; let d ← argOf a1; let s ← unhex a2; let q ← unhex a3
+      some (some (Write.fqParts id d s q))
+    | "fq_owned" => do let h ← unhex a0; let s ← unhex a1; let q ← unhex a2; some (some (Write.fqTo h s q))
+    | "fq_many" =>
+      (a0.splitOn "|").foldlM (fun (acc : Option (List UInt8)) rec =>
+        match rec.splitOn ":" with
+        | [h, s, q] => do
+          let h ← unhexAux h.toList; let s ← unhexAux s.toList; let q ← unhexAux q.toList
+          some (acc.map (· ++ Write.fqTo h s q))
+        | _ => none) (some [])
+    | _ => none
+  | _ => none
+
+def handleWrite (toks : List String) : String :=
+  match toks with
+  | f :: w :: rest =>
+    match w.toNat? with
+    | none => "bad-case"
+    | some w =>
+      match runWrite f w rest with
+      | none => "bad-case"
+      | some none => "PANIC"
+      | some (some out) =>
+        let rt := if f.startsWith "fa" then reparseFa out else reparseFq out
+        (if out.isEmpty then "-" else hexOf out) ++ " RT:" ++ rt
+  | _ => "bad-case"
+
 def handle (line : String) : List String :=
   match line.trimAscii.toString.splitOn " " with
   | "R" :: toks =>
     match runReaderCase toks with
     | some (m, s) => ["M " ++ m, "S " ++ s]
     | none => ["M bad-case"]
+  | "W" :: toks => ["M " ++ handleWrite toks]
   | _ => ["M bad-case"]
 
 partial def loop (h : IO.FS.Stream) (out : IO.FS.Stream) : IO Unit := do
